@@ -133,7 +133,7 @@ impl Prop for C05 {
     "case = (prefill of two commits, 2-4 writer threads with own handles running new/add/delete/commit/rollback lists over 5 ids, optional compaction thread, storage backend, schedule = round-robin | random | PCT priorities with 1-3 change points | one thread runs whole calls); every instrumented point (call begin, section enter, commit/compact stages, section exit) is a scheduling decision; non-trivial = the recorded enter order interleaves calls of at least two threads AND at least one thread was granted while another thread held the writer lock (real contention) AND at least one non-empty commit ran; distinct = distinct case JSON"
   }
   fn count(&self, tier: Tier) -> usize {
-    tier.pick(110, 2500)
+    tier.pick(110, 1200)
   }
   fn serial(&self) -> bool {
     true
